@@ -886,14 +886,35 @@ fn ext_valid(schema: &Value, root: &Value, v: &Value, depth: usize) -> Option<bo
             }
         }
         let props = o.get("properties").and_then(|p| p.as_object());
+        let pats = o.get("patternProperties").and_then(|p| p.as_object());
         for (k, x) in m {
+            let mut covered = false;
             if let Some(s) = props.and_then(|p| p.get(k)) {
+                covered = true;
                 if !ext_valid(s, root, x, depth + 1)? {
                     return Some(false);
                 }
-            } else if let Some(s) = o.get("additionalProperties") {
-                if !ext_valid(s, root, x, depth + 1)? {
-                    return Some(false);
+            }
+            if let Some(pats) = pats {
+                for (pat, s) in pats {
+                    // only the pattern shape the generator emits: ^literal
+                    let lit = pat.strip_prefix('^')?;
+                    if lit.chars().any(|c| !(c.is_ascii_alphanumeric() || c == '_')) {
+                        return None;
+                    }
+                    if k.starts_with(lit) {
+                        covered = true;
+                        if !ext_valid(s, root, x, depth + 1)? {
+                            return Some(false);
+                        }
+                    }
+                }
+            }
+            if !covered {
+                if let Some(s) = o.get("additionalProperties") {
+                    if !ext_valid(s, root, x, depth + 1)? {
+                        return Some(false);
+                    }
                 }
             }
         }
@@ -949,6 +970,23 @@ fn gen_ext(rng: &mut Rng, depth: usize) -> Value {
         let a = side(rng);
         let b = side(rng);
         return json!({"allOf": [a, b]});
+    }
+    if rng.chance(1, 6) {
+        // declared properties (some unsatisfiable) together with patternProperties that match their names
+        let leafs = [json!({"type": "integer"}), json!({"type": "boolean"}), json!({"type": "string", "maxLength": 2}), json!(false), json!({"type": "null"})];
+        let wide = [json!({"type": ["integer", "string"]}), json!({"type": ["boolean", "null", "integer"]}), json!({})];
+        let names = ["a", "b", "bx", "x_1", "c"];
+        let mut props = Map::new();
+        for _ in 0..rng.range(1, 3) {
+            props.insert(rng.pick(&names).to_string(), rng.pick(&leafs).clone());
+        }
+        let mut pats = Map::new();
+        for _ in 0..rng.range(1, 2) {
+            pats.insert(rng.pick(&["^b", "^x_", "^a", "^c"]).to_string(), rng.pick(&wide).clone());
+        }
+        let req: Vec<Value> = props.iter().filter(|(_, v)| **v != json!(false)).filter(|_| rng.chance(1, 3)).map(|(k, _)| json!(k)).collect();
+        return json!({"type": "object", "properties": props, "patternProperties": pats, "required": req,
+                      "additionalProperties": if rng.chance(1, 2) { json!(false) } else { json!({"type": "null"}) }});
     }
     match rng.below(5) {
         0 => json!({"type": "array", "items": gen_ext(rng, depth - 1), "minItems": rng.below(2), "maxItems": rng.range(2, 4)}),
